@@ -15,7 +15,7 @@ from .. import cover, gen
 LEVEL = 'exploration'
 JOBS = {'quick': 4, 'thorough': 16}
 REQUIRED_MONITORS = ('alignment_postcondition', 'repeat_bit_identical', 'caller_objects_unchanged')
-REQUIRED_CLASSES = ('sizes:start-smaller', 'sizes:start-larger', 'sizes:tie', 'mobile:tree', 'mobile:cyclic',
+REQUIRED_CLASSES = ('session:re-aligned', 'session:molecule-replaced', 'session:multi-residue', 'sizes:start-smaller', 'sizes:start-larger', 'sizes:tie', 'mobile:tree', 'mobile:cyclic',
                     'mobile:one-atom', 'hydrogens:ignored', 'hydrogens:kept', 'restraints:none', 'restraints:some',
                     'types:(0,)', 'types:(1,)', 'types:(2,)', 'types:(0, 1)', 'types:default', 'shipped', 'end:one-atom')
 RULE = ('alignments over (start, end) molecule pairs: sizes 1..40 in both orders and ties, mobile molecule a random tree or a '
@@ -53,6 +53,8 @@ def cases(ctx):
         yield {'kind': 'gen', 'i': i}
     for i in range(3 if ctx.tier == 'quick' else 30):
         yield {'kind': 'shipped', 'i': i}
+    for i in range(120 if ctx.tier == 'quick' else 2500):
+        yield {'kind': 'session', 'i': i}
 
 
 def make_mol(rng, name, n, cyclic, hydrogens, prefix):
@@ -250,5 +252,86 @@ def run_shipped(ctx, case):
         ctx.hit('shipped')
 
 
+def run_session(ctx, case):
+    """One Alignment object used for several alignments in a row: aligned again as it stands, after one of its molecules
+    was replaced by another configuration of the same species (different bond lengths), with other options each time.
+    Every alignment is judged against the state the object had right before that alignment."""
+    from gaddlemaps import Alignment
+    i = case['i']
+    rng = ctx.rng('session', i)
+    n1, n2 = int(rng.integers(2, 12)), int(rng.integers(2, 12))
+    if i % 3 == 0:
+        n2 = n1
+    multi = i % 4 == 1
+    hyd = rng.random() < 0.5
+
+    def build(n, prefix, nres):
+        edges = gen.random_tree(rng, n)
+        hs = {int(j) for j in range(1, n) if hyd and rng.random() < 0.3}
+        names = gen.atom_names(n, prefix, hydrogens=hs)
+        cuts = sorted(int(x) for x in rng.choice(np.arange(1, n), size=nres - 1, replace=False)) if nres > 1 else []
+        resids = [1 + sum(1 for c in cuts if j >= c) for j in range(n)]
+        resnames = [f'R{r}' for r in resids]
+
+        def conf():
+            pos = gen.embed_graph(rng, n, edges) + rng.normal(size=3) * 3
+            return gen.make_molecule('MOLS', names, edges, pos, resnames=resnames, resids=resids)
+        return edges, conf
+
+    nres = int(rng.integers(2, min(n1, n2) + 1)) if multi and min(n1, n2) >= 2 else 1
+    es, conf_s = build(n1, 'B', nres)
+    ee, conf_e = build(n2, 'C', nres)
+    start_is_mobile = n1 < n2
+    mobile_edges = es if start_is_mobile else ee
+    ali = Alignment(conf_s(), conf_e())
+    old = Alignment.STEPS_FACTOR
+    Alignment.STEPS_FACTOR = int(rng.choice([1, 3, 8]))
+    admissible = [t for t in TYPES if t is None or 2 not in t or min(n1, n2) >= 2]
+    ops = []
+    try:
+        for step in range(int(rng.integers(2, 5))):
+            op = 'first' if step == 0 else ['again', 'replace-start', 'replace-end', 'replace-both'][int(rng.integers(0, 4))]
+            held = {}
+            if op in ('replace-start', 'replace-both'):
+                held['start'] = conf_s()
+                ali.start = held['start']
+            if op in ('replace-end', 'replace-both'):
+                held['end'] = conf_e()
+                ali.end = held['end']
+            snaps = {k: snapshot(m) for k, m in held.items()}
+            types = admissible[int(rng.integers(0, len(admissible)))]
+            restr = None if (multi or rng.random() < 0.5) else gen_restr(rng, 'partial', n1, n2)
+            ignore_h = bool(rng.random() < 0.5)
+            seed = ctx.libseed('session', i * 10 + step)
+            ops.append({'op': op, 'types': types, 'restraints': restr, 'ignore_hydrogens': ignore_h, 'seed': seed})
+            w = {'n_start': n1, 'n_end': n2, 'edges_start': es, 'edges_end': ee, 'residues': nres, 'ops': list(ops),
+                 'steps_factor': Alignment.STEPS_FACTOR}
+            before = {'start': np.array(ali.start.atoms_positions), 'end': np.array(ali.end.atoms_positions),
+                      'names': ([a.name for a in ali.start], [a.name for a in ali.end])}
+            np.random.seed(seed)
+            try:
+                ali.align_molecules(restrictions=restr, deformation_types=types, ignore_hydrogens=ignore_h)
+            except Exception as exc:  # noqa
+                ctx.violation(f'alignment-raises:session:{type(exc).__name__}', str(exc)[:200], witness=w)
+                return
+            after = {'start': np.array(ali.start.atoms_positions), 'end': np.array(ali.end.atoms_positions),
+                     'names': ([a.name for a in ali.start], [a.name for a in ali.end])}
+            ctx.count('evaluations')
+            judge(ctx, before, after, mobile_edges, False, start_is_mobile, types if types is not None else (0, 1, 2), w)
+            ctx.monitor('caller_objects_unchanged')
+            for k, m in held.items():
+                if not same_snapshot(snapshot(m), snaps[k]):
+                    ctx.violation(f'caller-molecule-modified:{k}', f'the {k} Molecule assigned to a used Alignment was modified', witness=w)
+            if op == 'again':
+                ctx.hit('session:re-aligned')
+            elif op != 'first':
+                ctx.hit('session:molecule-replaced')
+            if nres > 1:
+                ctx.hit('session:multi-residue')
+    finally:
+        Alignment.STEPS_FACTOR = old
+    ctx.nontrivial(('session', n1, n2, nres, tuple(o['op'] for o in ops)))
+
+
 def run_case(ctx, case):
-    {'gen': run_gen, 'shipped': run_shipped}[case['kind']](ctx, case)
+    {'gen': run_gen, 'shipped': run_shipped, 'session': run_session}[case['kind']](ctx, case)
